@@ -73,6 +73,8 @@ pub struct GenCfg {
     pub call_mid_expression_boost: bool,
     /// float globals that drift off their initial value by tiny and by ordinary amounts
     pub floats: bool,
+    /// pairs "~ g = g" / "~ g = g + 1": a write that changes nothing followed by one that does
+    pub identity_then_change: bool,
 }
 
 impl GenCfg {
@@ -123,6 +125,7 @@ impl GenCfg {
             allow_runout: false,
             call_mid_expression_boost: false,
             floats: false,
+            identity_then_change: false,
         }
     }
     /// everything, including the nondeterministic-looking features (for lockstep oracles)
@@ -772,6 +775,18 @@ impl<'a> Builder<'a> {
                 } else {
                     let t = self.text();
                     v.push(Stmt::Line(vec![Inline::Text(format!("{t} ")), Inline::Expr(e)], None));
+                }
+                continue;
+            }
+            if self.cfg.identity_then_change && self.rng.chance(1, 6) {
+                if self.rng.chance(1, 2) {
+                    let g = self.rng.pick(&self.meta.int_globals.clone()).clone();
+                    v.push(Stmt::Assign { temp_decl: false, name: g.clone(), op: AssignOp::Set, expr: Expr::Var(g.clone()) });
+                    v.push(Stmt::Assign { temp_decl: false, name: g, op: AssignOp::Add, expr: Expr::Int(1 + self.rng.below(3) as i32) });
+                } else {
+                    let g = self.rng.pick(&self.meta.bool_globals.clone()).clone();
+                    v.push(Stmt::Assign { temp_decl: false, name: g.clone(), op: AssignOp::Set, expr: Expr::Var(g.clone()) });
+                    v.push(Stmt::Assign { temp_decl: false, name: g.clone(), op: AssignOp::Set, expr: Expr::Not(Box::new(Expr::Var(g))) });
                 }
                 continue;
             }
